@@ -17,8 +17,8 @@ import core
 from core import Fraction, frac, rat
 
 RULE = ("case = (constructor se3|pos+quat, with/without stamps, poses, operation history); exact-grid stream: every history "
-        "over a fixed alphabet (18 symbols: left/right/propagating SE(3), Sim(3) left/right/propagating, scale, reduce, downsample, "
-        "motion filter, crop, align, align_origin, project, copy, reads of each view, check) up to depth 2 (quick) / 3 (thorough) plus "
+        "over a fixed alphabet (21 symbols: left/right/propagating SE(3), Sim(3) left/right/propagating, scale, reduce, downsample, "
+        "motion filter, crop, align, align_origin, project, copy, reads of each view, check, reduce with repeated indices, reduce with a same-length permutation) up to depth 2 (quick) / 3 (thorough) plus "
         "depth 4 over the cache-relevant sub-alphabet, on 3-pose trajectories with 90-degree rotations and dyadic coordinates; "
         "long exact-grid stream: histories of length <= 12 on up to 200 poses (incl. propagation); random stream: histories of length <= 15 "
         "on 1..200 poses, epoch stamps, UTM-sized offsets, scales 1e-3..1e3 (propagating transforms only on <= 40 poses there: exact "
@@ -26,6 +26,15 @@ RULE = ("case = (constructor se3|pos+quat, with/without stamps, poses, operation
         "every read, num_poses, check() (on a deep copy) and raised errors compared with the cache machine after every step; "
         "non-trivial = the history contains a mutating operation (all views are observed on a deep copy after every step); "
         "distinct by content hash")
+
+T_ = "evo/core/trajectory.py:"
+MODELLED = [T_ + "PosePath3D." + f for f in ("__init__", "positions_xyz", "orientations_quat_wxyz", "poses_se3", "num_poses", "distances",
+                                              "path_length", "transform", "scale", "project", "align", "align_origin",
+                                              "reduce_to_ids", "downsample", "motion_filter", "check")] \
+    + [T_ + "PoseTrajectory3D." + f for f in ("__init__", "reduce_to_ids", "reduce_to_time_range", "check", "speeds")] \
+    + [T_ + "xyz_quat_wxyz_to_se3_poses", T_ + "se3_poses_to_xyz_quat_wxyz", T_ + "calc_speed",
+       "evo/core/transformations.py:quaternion_matrix", "evo/core/geometry.py:arc_len", "evo/core/geometry.py:accumulated_distances"] \
+    + ["evo/core/lie_algebra.py:" + f for f in ("se3", "se3_inverse", "relative_se3", "sim3_scale", "is_se3", "is_so3")]
 
 PLANES = {"xy": 2, "xz": 1, "yz": 0}
 U = 2.0 ** -53
@@ -90,6 +99,36 @@ def grid_quat(m):
     return GRID_QUATS[key]
 
 
+def red_ids(op, n):
+    """index list of a `red` step for the current number of poses: `sel` = increasing subset (fractions of n);
+    `how` = arbitrary lists — rev (same-length permutation), rot (rotation by one), rep (every index once or twice,
+    e.g. [0,0,1,2,2]), samerep (same length as the trajectory with a repeat), shuf (shuffled subset), empty"""
+    if n <= 0:
+        return []
+    if "sel" in op:
+        return sorted(set(int(f * n) for f in op["sel"]))
+    rr = random.Random(op.get("seed", 0))
+    how = op["how"]
+    if how == "rev":
+        return list(range(n))[::-1]
+    if how == "rot":
+        return list(range(1, n)) + [0]
+    if how == "rep":
+        out = []
+        for i in range(n):
+            out += [i] * (2 if (i % 2 == 0 or rr.random() < 0.3) else 1)
+        return out
+    if how == "samerep":
+        return ([0] + list(range(n - 1))) if n > 1 else [0]
+    if how == "shuf":
+        ids = [i for i in range(n) if rr.random() < 0.7] or [0]
+        rr.shuffle(ids)
+        return ids
+    if how == "empty":
+        return []
+    raise ValueError(how)
+
+
 def mat4(rot, t):
     m = np.eye(4)
     m[:3, :3] = rot
@@ -116,6 +155,26 @@ def grid_base(r, timed, ctor, n=3):
     return c
 
 
+def with_shared(r, case):
+    """variant of an se3-constructed case whose pose list repeats matrix objects: all slots one object (`[P]*n`)
+    or some neighbouring slots sharing one"""
+    n = len(case["poses"])
+    if r.random() < 0.5:
+        share = [0] * n
+    else:
+        share, cur = [], 0
+        for i in range(n):
+            if i > 0 and r.random() < 0.5:
+                share.append(cur)
+            else:
+                cur = i
+                share.append(i)
+    c = dict(case)
+    c["share"] = share
+    c["poses"] = [case["poses"][j] for j in share]
+    return c
+
+
 def grid_alphabet(r):
     rots = grid_rots()
     T1 = mat4(rots[7], [1.0, -2.0, 0.5]).flatten().tolist()
@@ -130,8 +189,9 @@ def grid_alphabet(r):
         {"op": "al", "mode": "s", "ref_seed": 5, "grid": True, "n": -1}, {"op": "ao", "ref": ref},
         {"op": "pj", "plane": "xy"}, {"op": "cp"},
         {"op": "rd", "v": "pos"}, {"op": "rd", "v": "quat"}, {"op": "rd", "v": "se3"}, {"op": "chk"},
+        {"op": "red", "how": "rep"}, {"op": "red", "how": "rev"},
     ]
-    core_ = [full[i] for i in (0, 2, 3, 6, 7, 9, 11, 13, 15, 16, 17)]
+    core_ = [full[i] for i in (0, 2, 3, 6, 7, 9, 11, 13, 15, 16, 17, 19)]
     return full, core_
 
 
@@ -206,7 +266,11 @@ def rand_ops(r, n, timed, length):
         elif k < 0.52:
             ops.append({"op": "sc", "s": r.choice([2.0, 0.5, 10 ** r.uniform(-3, 3)])})
         elif k < 0.58:
-            ops.append({"op": "red", "sel": sorted(r.random() for _ in range(r.randint(1, 12)))})
+            if r.random() < 0.5:
+                ops.append({"op": "red", "sel": sorted(r.random() for _ in range(r.randint(1, 12)))})
+            else:
+                ops.append({"op": "red", "how": r.choice(["rev", "rot", "rep", "samerep", "shuf", "shuf", "empty"]) if r.random() < 0.9
+                            else "empty", "seed": r.randint(0, 10 ** 6)})
         elif k < 0.63:
             ops.append({"op": "ds", "n": r.choice([1, 2, 3, 5, 17, 100, 0])})
         elif k < 0.68:
@@ -243,11 +307,25 @@ def gen_cases(ctx):
                          [{"op": "tf", "mode": "P", "T": full[0]["T"]}, {"op": "rd", "v": "se3"}],
                          [{"op": "tf", "mode": "L", "T": full[3]["T"]}, {"op": "chk"}]):
                 yield dict(b, ops=hist, corpus=True)
+    # index lists with repeats / same-length permutations, matrix objects shared inside the pose list
+    for timed in (False, True):
+        for how in ("rep", "rev", "samerep", "rot", "shuf"):
+            for tail in ([{"op": "sc", "s": 2.0}], [{"op": "tf", "mode": "L", "T": full[0]["T"]}], [{"op": "pj", "plane": "xy"}],
+                         [{"op": "rd", "v": "pos"}, {"op": "sc", "s": 2.0}]):
+                for ctor in ("se3", "pq"):
+                    yield dict(grid_base(r, timed, ctor), corpus=True,
+                               ops=[{"op": "red", "how": how, "seed": 1}] + tail + [{"op": "rd", "v": "se3"}, {"op": "rd", "v": "pos"}])
+        for tail in ([{"op": "sc", "s": 2.0}], [{"op": "rd", "v": "pos"}, {"op": "sc", "s": 0.5}, {"op": "rd", "v": "se3"}],
+                     [{"op": "pj", "plane": "xy"}], [{"op": "tf", "mode": "P", "T": full[0]["T"]}],
+                     [{"op": "red", "how": "rev"}, {"op": "sc", "s": 2.0}]):
+            for _ in range(2):
+                yield dict(with_shared(r, grid_base(r, timed, "se3", n=r.choice([2, 3, 5]))), ops=tail, corpus=True)
     depth = 3 if ctx.thorough else 2
     for ctor in ("se3", "pq"):
-        for timed in (False, True):
-            for d in range(1, depth + 1):
-                for hist in itertools.product(full, repeat=d):
+        for d in range(1, depth + 1):
+            for hist in itertools.product(full, repeat=d):
+                # with and without stamps for depth <= 2; at depth 3 one of the two, chosen at random per history
+                for timed in ((False, True) if d <= 2 else (r.random() < 0.5,)):
                     if not timed and any(o["op"] == "crop" for o in hist):
                         continue
                     yield dict(grid_base(r, timed, ctor), ops=list(hist), exhaustive=d)
@@ -263,7 +341,10 @@ def gen_cases(ctx):
             hist = [r.choice(full) for _ in range(d)]
             if not timed:
                 hist = [o for o in hist if o["op"] != "crop"]
-            yield dict(grid_base(r, timed, r.choice(["se3", "pq"])), ops=hist, sampled=d)
+            b = grid_base(r, timed, r.choice(["se3", "pq"]))
+            if b["ctor"] == "se3" and r.random() < 0.3:
+                b = with_shared(r, b)
+            yield dict(b, ops=hist, sampled=d)
     # long exact-grid trajectories: propagation, reduction, cropping … on up to 200 poses with small exact numbers
     for _ in range(150 if ctx.thorough else 25):
         n = r.choice([10, 50, 120, 200]) if ctx.thorough else r.choice([10, 40, 80])
@@ -291,6 +372,8 @@ def gen_cases(ctx):
     maxn = 200 if ctx.thorough else 60
     for _ in range(n_rand):
         b, n = rand_base(r, maxn)
+        if b["ctor"] == "se3" and r.random() < 0.2:
+            b = with_shared(r, b)
         yield dict(b, ops=rand_ops(r, n, b["stamps"] is not None, r.randint(1, 15)))
 
 
@@ -299,7 +382,12 @@ def build(case):
     from evo.core.trajectory import PosePath3D, PoseTrajectory3D
     kw = {}
     if case["ctor"] == "se3":
-        kw["poses_se3"] = [np.array(p, dtype=float).reshape(4, 4) for p in case["poses"]]
+        if case.get("share"):
+            # slots i with the same share[i] hold the *same* ndarray object (e.g. `[P] * n`)
+            objs = {}
+            kw["poses_se3"] = [objs.setdefault(j, np.array(case["poses"][j], dtype=float).reshape(4, 4)) for j in case["share"]]
+        else:
+            kw["poses_se3"] = [np.array(p, dtype=float).reshape(4, 4) for p in case["poses"]]
     else:
         kw["positions_xyz"] = np.array(case["xyz"], dtype=float)
         kw["orientations_quat_wxyz"] = np.array(case["quat"], dtype=float)
@@ -404,7 +492,11 @@ def run_impl(case):
         tok, out, ignore, info = None, "U", False, {}
         try:
             k = op["op"]
-            if k == "tf":
+            if n == 0 and (k not in ("rd", "chk", "cp", "red", "sc", "ds") or (k == "rd" and op["v"] == "dist")):
+                # an empty trajectory (after `reduce_to_ids([])`) is outside the property's range (1..200 poses) and most
+                # methods of evo raise numpy errors on it: only reads, copies, scaling and further reductions are exercised
+                info["skipped_on_empty"] = True
+            elif k == "tf":
                 T = np.array(op["T"], dtype=float).reshape(4, 4)
                 tok = f"tf {op['mode']} {pose_toks(T)} {norm_tok(T)}"
                 obj.transform(T, right_mul=op["mode"] in "RP", propagate=op["mode"] == "P")
@@ -412,7 +504,7 @@ def run_impl(case):
                 tok = f"sc {rat(op['s'])}"
                 obj.scale(op["s"])
             elif k == "red":
-                ids = sorted(set(int(f * n) for f in op["sel"])) if n > 0 else []
+                ids = red_ids(op, n)
                 info["ids"] = ids
                 tok = f"red {core.natlist(ids)}"
                 obj.reduce_to_ids(ids)
@@ -436,6 +528,7 @@ def run_impl(case):
             elif k == "crop":
                 st = prev["stamps"]
                 lo, hi = float(st[int(op["lo"] * n)]), float(st[int(op["hi"] * n)])
+                lo, hi = min(lo, hi), max(lo, hi)      # stamps may have been permuted by an earlier reduce
                 ids = [int(i) for i in np.where(np.logical_and(st >= lo, st <= hi))[0]]
                 info.update(ids=ids, lo=lo, hi=hi)
                 tok = f"crop {core.natlist(ids)}"
@@ -774,6 +867,8 @@ def split_sim3(T):
 
 def effect(op, st, p, s, tr, tp, projected):
     k = op["op"]
+    if st["info"].get("skipped_on_empty"):
+        return None
     unchanged_stamps = (p["stamps"] is None and s["stamps"] is None) or np.array_equal(p["stamps"], s["stamps"])
     if k in ("rd", "chk", "cp"):
         if not same_views(p, s):
@@ -948,6 +1043,11 @@ def judge(ctx, case, impl, out_line):
     if stale_probe:
         ctx.count("branch", "stale-cache-probe(cache filled, mutation, other view read)")
     mutating = any(o["op"] in ("tf", "sc", "red", "ds", "mf", "crop", "al", "ao", "pj") for o in case["ops"])
+    if case.get("share"):
+        ctx.count("dist", "pose-list-shares-matrix-objects")
+    for o in case["ops"]:
+        if o["op"] == "red" and "how" in o:
+            ctx.count("branch", "red:" + o["how"])
     ctx.record({k: case[k] for k in case if k not in ("corpus", "exhaustive", "sampled", "stream")}, mutating)
 
 
@@ -970,6 +1070,8 @@ def shrink(case):
         yield dict(case, ops=ops[:i] + ops[i + 1:])
     key = "poses" if case["ctor"] == "se3" else "xyz"
     n = len(case[key])
+    if case.get("share"):
+        return
     for i in range(n):
         if n > 1:
             c = dict(case)
@@ -983,6 +1085,7 @@ def shrink(case):
 
 def check(ctx):
     lean = core.lean_side(ctx.prop, ctx.tier)
+    core.drift(ctx, MODELLED)
     cases = list(gen_cases(ctx))
     evaluate(ctx, cases)
     core.shrink_all(ctx, shrink, evaluate, budget=120)
